@@ -242,38 +242,55 @@ def scoreCands (fl : R → Int) (castI : Int → R) (sqrt : R → R) (P : Params
     { edge := c.1, src := c.2.1, dst := c.2.2, subs := subs,
       score := lineScore sqrt castI paf.at subs src dst maxLen P.distWeight }
 
-/-- the `n_src × n_dst` score table of edge `k` -/
-def scoreTable (ch : List Nat) (edges : List Edge) (cands : List (Cand R)) (k : Nat) : Mat (Option R) :=
+/-- the `n_src × n_dst` score table of edge `k`.  `ok` = "the score is a finite number": a NaN score
+(coincident source and destination peak: `0/0` in `spatial_vecs / spatial_vec_lengths`) is `none`, the
+`inf` cost of `match_candidates_sample` (`fun _ => true` over an exact field, `Float.isFinite` in the
+driver) -/
+def scoreTable (ok : R → Bool) (ch : List Nat) (edges : List Edge) (cands : List (Cand R)) (k : Nat) :
+    Mat (Option R) :=
   match edges[k]? with
   | none => []
   | some e =>
     (Grouping.nodePeaks ch e.1).map fun s => (Grouping.nodePeaks ch e.2).map fun d =>
-      (cands.find? fun c => c.edge == k && c.src == s && c.dst == d).map (·.score)
+      (cands.find? fun c => c.edge == k && c.src == s && c.dst == d).bind fun c =>
+        if ok c.score then some c.score else none
 
 /-- the score tables of all edge types, as `Grouping.groupSample` takes them -/
-def scoreTables (ch : List Nat) (edges : List Edge) (cands : List (Cand R)) : List (Mat (Option R)) :=
-  (List.range edges.length).map (scoreTable ch edges cands)
+def scoreTables (ok : R → Bool) (ch : List Nat) (edges : List Edge) (cands : List (Cand R)) :
+    List (Mat (Option R)) :=
+  (List.range edges.length).map (scoreTable ok ch edges cands)
 
 /-- the parameters of the grouping stage (`PAFScorer` attributes); `order` = `sorted_edge_inds` -/
 def groupParams (P : Params R) (order : List Nat) : Grouping.Params R :=
   ⟨P.nNodes, P.edges, order, P.minLine, P.minPeaks⟩
 
+/-- rows of global peak indices: `(node, index within node type)` ↦ index into `peaks_sample` -/
+def globalRows (ch : List Nat) (insts : List (Inst R)) : List (List (Option Nat)) :=
+  insts.map fun i => i.row.mapIdx fun n x => x.bind fun k => Grouping.globalIdx ch (n, k)
+
 /-- `forward` for one sample: peaks → candidates and line scores → `PAFScorer.predict`'s matching
-and grouping (`Grouping.groupSample`, the pinned matching; scipy = the parameter `lsa`) → rows of
-global peak indices.  `toposort_edges` failing is `noOrder`. -/
-def forwardSample (fl : R → Int) (castI : Int → R) (sqrt : R → R) (P : Params R) (paf : Paf R)
-    (peaks : List (GPeak R)) (lsa : Grouping.Lsa R) : Except GErr (Output R) :=
+and grouping (`Grouping.groupSample`; `fixed = true` is the matching of /repo HEAD, i.e. after
+`fixes/C08-infeasible.patch`, `false` the pinned one; scipy = the parameter `lsa`) → rows of global
+peak indices.  `toposort_edges` failing is `noOrder`. -/
+def forwardSample (fixed : Bool) (ok : R → Bool) (fl : R → Int) (castI : Int → R) (sqrt : R → R)
+    (P : Params R) (paf : Paf R) (peaks : List (GPeak R)) (lsa : Grouping.Lsa R) :
+    Except GErr (Output R) :=
   match Toposort.toposort P.edges with
   | none => .error .noOrder
   | some order =>
     let ch := peaks.map (·.ch)
     let cands := scoreCands fl castI sqrt P paf peaks
-    match Grouping.groupSample false lsa (groupParams P order) ch (scoreTables ch P.edges cands) with
+    match Grouping.groupSample fixed lsa (groupParams P order) ch (scoreTables ok ch P.edges cands) with
     | .error e => .error e
     | .ok out =>
       .ok { cands := cands, conns := out.conns, assign := out.assign,
-            rows := out.insts.map fun i => i.row.mapIdx fun n x => x.bind fun k => Grouping.globalIdx ch (n, k),
+            rows := globalRows ch out.insts,
             scores := out.insts.map (·.score) }
+
+/-- `pred_peak_values` of one instance row: the confidence-map value of the assigned peak, NaN
+(`none`) where the row has no peak -/
+def rowVals (peaks : List (GPeak R)) (row : List (Option Nat)) : List (Option R) :=
+  row.map fun x => x.bind fun i => (peaks[i]?).map (·.val)
 
 /-- final coordinates of one instance row: `peak * cms_stride / input_scale / eff_scale` -/
 def rowCoords (castI : Int → R) (P : Params R) (eff : R) (peaks : List (GPeak R))
